@@ -89,7 +89,9 @@ RECURSIVE Digits(_)
 Digits(n) == IF n < 10 THEN <<48 + n>> ELSE Digits(n \div 10) \o <<48 + (n % 10)>>
 
 \* the typed value an attribute property must hold; decimals in units of 10^-4
+\* ("big": an integer too large for TLC's integers, given by - and compared through - its decimal digits)
 NV(v) == CASE v.t = "int"  -> [t |-> "int", i |-> v.i]
+           [] v.t = "big"  -> [t |-> "big", s |-> v.s]
            [] v.t = "dec"  -> [t |-> "dec", u |-> v.i * 10000 + v.f * Pow10(4 - v.k)]
            [] v.t = "bool" -> [t |-> "bool", b |-> v.b]
            [] v.t = "str"  -> [t |-> "str", s |-> v.s]
@@ -97,6 +99,7 @@ PropSet(props) == {[n |-> props[i].n, v |-> NV(props[i].v)] : i \in DOMAIN props
 
 \* text a value turns into inside a replacement (decimals: never asked, see WellFormedC13)
 Display(v) == CASE v.t = "int"  -> Digits(v.i)
+                [] v.t = "big"  -> v.s
                 [] v.t = "str"  -> v.s
                 [] v.t = "bool" -> IF v.b THEN S_True ELSE S_False
                 [] OTHER        -> <<63>>
@@ -122,9 +125,12 @@ ReplCase(it) ==
   ELSE LET v == Prop(it.props, S_value) IN
     CASE it.k = "select"  -> [ok |-> TRUE, key |-> Display(v), val |-> Display(v)]
       [] it.k = "plural"  -> IF v.t = "int" THEN [ok |-> TRUE, key |-> IF v.i = 1 THEN S_one ELSE S_other, val |-> Display(v)]
+                             ELSE IF v.t = "big" THEN [ok |-> TRUE, key |-> S_other, val |-> Display(v)]
                              ELSE IF v.t = "dec" THEN [ok |-> TRUE, key |-> S_other, val |-> Display(v)]
                              ELSE [ok |-> FALSE]
       [] it.k = "ordinal" -> IF v.t = "int" THEN [ok |-> TRUE, key |-> OrdinalCase(v.i), val |-> Display(v)]
+                             ELSE IF v.t = "big"        \* the category depends on the last two digits only
+                             THEN [ok |-> TRUE, key |-> OrdinalCase((v.s[Len(v.s) - 1] - 48) * 10 + v.s[Len(v.s)] - 48), val |-> Display(v)]
                              ELSE [ok |-> FALSE]
 Replacement(it) ==
   LET c == ReplCase(it) IN
@@ -144,6 +150,7 @@ ItemChars(it) == CASE it.k \in {"ch", "esc"} -> <<it.c>>
 \* length of a canonical rendering of the item (only for the model's own source
 \* position counter of property C14; absolute values are never compared with the code)
 ValLen(v) == CASE v.t = "int" -> Len(Digits(v.i))
+               [] v.t = "big" -> Len(v.s)
                [] v.t = "dec" -> Len(Digits(v.i)) + 1 + v.k
                [] v.t = "bool" -> IF v.b THEN 4 ELSE 5
                [] v.t = "str" -> Len(v.s) + (IF v.q THEN 2 ELSE 0)
